@@ -52,6 +52,19 @@ Theorem C18_view_point_is_in_view_raw f h id from until0 now sh sh' sort a t v :
 Proof. exact (view_point_is_in_view_raw f h id from until0 now sh sh' sort a t v). Qed.
 Print Assumptions C18_view_point_is_in_view_raw.
 
+(** ... and the same when no archive is named (every archive is selected, on both sides): a non-NaN point that view
+    prints for archive [id] inside the requested range is among the records view-raw prints for archive [id] *)
+Theorem C18_view_point_is_in_view_raw_all_archives f h id from until0 now sh sh' sort a t v :
+  opened f = Some h -> 0 <= id -> nth_error (hd_arcs h) (Z.to_nat id) = Some a -> wf_arc a ->
+  period a <= now -> now + 2 * a_step a < TMAX ->
+  0 <= from < 2^32 -> 0 <= resolve_until until0 now < 2^32 -> from <= resolve_until until0 now ->
+  In (RPoint id t v) (snd (view_cmd f ArchiveIDAll from until0 now sh)) -> is_nan v = false ->
+  (from = 0 \/ from < t) ->
+  t <= (if resolve_until until0 now =? from then ts_add (resolve_until until0 now) (a_step a) else resolve_until until0 now) ->
+  In (RPoint id t v) (snd (view_raw_cmd f ArchiveIDAll from until0 now sh' sort)).
+Proof. exact (view_all_point_is_in_view_raw_all f h id from until0 now sh sh' sort a t v). Qed.
+Print Assumptions C18_view_point_is_in_view_raw_all_archives.
+
 (** ** the -header switch only decides whether the header record is printed: status and point records of
     view and view-raw -- sorted or not -- are the same with and without it (the seeded change C18-n
     returned early, before sorting, when the header is off) *)
